@@ -190,3 +190,110 @@ if not sum(f or 0 for f in _vfound):
     ck.inconclusive.append('P2 vacuous: find_variable_paths never returned')
 ck.notes.append(f'find_variable_paths: {len(_vcases)} cases')
 ck.functions += ['GraphEngine::find_variable_paths', 'GraphEngine::find_paths_dfs_backtrack', 'GraphEngine::get_variable_path_neighbors_filtered']
+
+# ------------------------------------------------------------------ P3: the weight A* uses for a step is the cheapest connecting edge
+# astar_path relaxes a neighbour with the pair get_astar_edge_weight(current, neighbour, ...) returns.  Executed from MIR on two nodes
+# joined by 1..2 parallel edges whose `weight` property is a symbolic finite non-negative f64: the weight returned must be the least
+# weight of a connecting edge (otherwise the reported path is not a cheapest one), and the edge id that of an edge with that weight.
+ck.declare('P3_astar_step_uses_the_cheapest_parallel_edge', 'get_astar_edge_weight(from, to, Some("weight"), default, None, Outgoing) with 1..2 parallel directed edges from -> to, weights symbolic finite f64 >= 0',
+           'the returned weight is the minimum weight over the connecting edges and the returned edge carries it')
+
+
+def tv_float(x):
+    return Enum('TensorValue', P.variant_index('TensorValue', 'Scalar'), {('Scalar', 0): Enum('ScalarValue', P.variant_index('ScalarValue', 'Float'), {('Float', 0): Flt(x)}, variant='Float')}, variant='Scalar')
+
+
+_p3 = 0
+for npar in (1, 2):
+    st = ex.new_state()
+    es = [(0, 1)] * npar
+    G = Graph(st, 2, es, concrete=True)
+    ws = [z3.FP(f'w{j}', z3.Float64()) for j in range(npar)]
+    for j, w_ in enumerate(ws):
+        st.assume(z3.And(z3.Not(z3.fpIsNaN(w_)), z3.Not(z3.fpIsInf(w_)), z3.fpGEQ(w_, z3.FPVal(0.0, z3.Float64()))))
+        rec_ = G.vals[2 + j].fields['f']
+        rec_.keys.append(Str(text='weight'))
+        rec_.vals.append(tv_float(w_))
+    G.add_lists(st, (True,) * npar)
+    ge = engine(st)
+    dflt = z3.FP('default_weight', z3.Float64())
+    res = run(st, 'GraphEngine::get_astar_edge_weight', [ref(ge), Int(G.nid[0], False), Int(G.nid[1], False), some(Str(text='weight'), 'Option<&str>'), Flt(dflt), none('Option<&str>'),
+                                                         Enum('Direction', P.variant_index('Direction', 'Outgoing'), {}, variant='Outgoing')])
+    ck.note_path_problem(res, f'get_astar_edge_weight parallel={npar}')
+    for r in res:
+        wit = lambda m, npar=npar, ws=ws: {'graph_call': 'astar_parallel', 'weight_bits': [mval(m, z3.fpToIEEEBV(w_)) for w_ in ws]}
+        if r.status == 'panic':
+            ck.require(ex, 'P3_astar_step_uses_the_cheapest_parallel_edge', r.pc, None, z3.BoolVal(False), wit, lambda m, w: 'astar-weight-panic')
+            continue
+        if r.status != 'return':
+            continue
+        _p3 += 1
+        got_w, got_e = r.retval.fields[0], r.retval.fields[1]
+        gw = got_w.v if isinstance(got_w, Flt) else got_w
+        is_min = z3.And([z3.fpLEQ(gw, w_) for w_ in ws] + [z3.Or([z3.And(z3.fpEQ(gw, w_), got_e.v == G.eid[j]) for j, w_ in enumerate(ws)])])
+        ck.require(ex, 'P3_astar_step_uses_the_cheapest_parallel_edge', r.pc, None, is_min, wit, lambda m, w: 'astar-first-parallel-edge-not-the-cheapest',
+                   prefer=z3.And([w_ == z3.FPVal(10.0 - 9 * j, z3.Float64()) for j, w_ in enumerate(ws)]))
+if _p3 == 0:
+    ck.inconclusive.append('P3 vacuous: get_astar_edge_weight never returned')
+ck.functions += ['GraphEngine::get_astar_edge_weight']
+
+# ------------------------------------------------------------------ P4: count_triangles agrees with the textbook count
+# The counting kernel of count_triangles from MIR: the node list and every node's neighbour list come from stubs describing a concrete
+# undirected simple graph on four nodes, the node IDS are symbolic and distinct (the kernel orders edges by degree and candidates by id,
+# so the verdict depends on how the two orders relate).  Clustering coefficients (floating point) are not judged.
+TRI_GRAPHS = [[], [(0, 1), (1, 2), (0, 2)], [(0, 1), (1, 2), (0, 2), (0, 3)], [(0, 1), (1, 2), (0, 2), (2, 3)], [(0, 1), (1, 2), (2, 3)], [(0, 1), (1, 2), (0, 2), (1, 3), (2, 3)],
+              [(0, 1), (0, 2), (0, 3), (1, 2), (1, 3), (2, 3)]]
+if T != 'quick':
+    _all = [(a, b) for a in range(4) for b in range(a + 1, 4)]
+    TRI_GRAPHS = [[e for k, e in enumerate(_all) if mask >> k & 1] for mask in range(64)]
+ck.bounds['count_triangles'] = f'{len(TRI_GRAPHS)} undirected simple graphs on 4 nodes, node ids symbolic distinct u64 (every relative order), neighbour lists in list order'
+ck.declare('P4_triangle_count_is_the_number_of_triangles', f'count_triangles (undirected) on {len(TRI_GRAPHS)} graphs on 4 nodes with symbolic node ids',
+           'triangle_count equals the number of node triples that are pairwise adjacent, and every node is credited with the triangles through it')
+
+
+def tri_case(es):
+    st = ex.new_state()
+    ids = [z3.BitVec(f'tn{i}', 64) for i in range(4)]
+    st.assume(z3.Distinct(*ids))
+    nb = {i: [] for i in range(4)}
+    for (a, b) in es:
+        nb[a].append(b)
+        nb[b].append(a)
+
+    def ov_neighbors(c):
+        nid = c.args[1].v
+        ks = [i for i in range(4) if z3.is_true(z3.simplify(nid == ids[i]))]
+        if len(ks) != 1:
+            raise Unsupported('neighbour list of an unknown node')
+        return _ok(Seq('u64', [Int(ids[j], False) for j in nb[ks[0]]]), 'Result<Vec<u64>, GraphError>')
+    saved = dict(ex.extra_models)
+    ex.extra_models.update({'GraphEngine::get_all_node_ids': lambda c: _ok(Seq('u64', [Int(x, False) for x in ids]), 'Result<Vec<u64>, GraphError>'),
+                            'GraphEngine::get_triangle_neighbor_ids': ov_neighbors, 'triangles::get_triangle_neighbor_ids': ov_neighbors})
+    try:
+        cfg = Struct('TriangleConfig', {P.field('TriangleConfig', 'edge_type'): none('Option<String>'), P.field('TriangleConfig', 'undirected'): z3.BoolVal(True)})
+        res = run(st, 'GraphEngine::count_triangles', [ref(Struct('GraphEngine', {}, lazy='GE')), ref(cfg)])
+    finally:
+        ex.extra_models.clear()
+        ex.extra_models.update(saved)
+    ck.note_path_problem(res, f'count_triangles edges={es}')
+    adj = lambda a, b: (a, b) in es or (b, a) in es
+    tris = [(a, b, c) for a in range(4) for b in range(a + 1, 4) for c in range(b + 1, 4) if adj(a, b) and adj(b, c) and adj(a, c)]
+    n_ok = 0
+    for r in res:
+        wit = lambda m, es=es: {'graph_call': 'count_triangles', 'n': 4, 'edges': [list(e) for e in es], 'node_ids': [mval(m, x) for x in ids]}
+        if r.status == 'panic':
+            ck.require(ex, 'P4_triangle_count_is_the_number_of_triangles', r.pc, None, z3.BoolVal(False), wit, lambda m, w: 'triangles-panic')
+            continue
+        if r.status != 'return' or r.retval.variant != 'Ok':
+            continue
+        n_ok += 1
+        tr = r.retval.fields[('Ok', 0)]
+        cnt = tr.load(P.field('TriangleResult', 'triangle_count'), None, r.st).v
+        ck.require(ex, 'P4_triangle_count_is_the_number_of_triangles', r.pc, None, cnt == z3.BitVecVal(len(tris), 64), wit, lambda m, w: 'triangle-counted-more-than-once')
+    return n_ok
+
+
+_tfound = ck.parallel([TRI_GRAPHS[i::8] for i in range(8)], lambda chunk: sum(tri_case(e) for e in chunk), jobs=8 if T != 'quick' else 4)
+if not sum(f or 0 for f in _tfound):
+    ck.inconclusive.append('P4 vacuous: count_triangles never returned')
+ck.functions += ['GraphEngine::count_triangles']
